@@ -255,6 +255,15 @@ func errOfCall(v ssa.Value, callOK func(c *ssa.Call) bool, seen map[ssa.Value]bo
 			}
 		}
 		return len(x.Edges) > 0
+	case *ssa.UnOp:
+		// read back from a captured variable it was just stored to (same block, no call between)
+		if x.Op == token.MUL {
+			if _, isFv := x.X.(*ssa.FreeVar); isFv {
+				if sv := storedJustBefore(x); sv != nil {
+					return errOfCall(sv, callOK, seen)
+				}
+			}
+		}
 	}
 	return false
 }
@@ -414,6 +423,21 @@ func factsOnPath(cond ssa.Value, truth bool, path []*ssa.BasicBlock, depth int) 
 		if f.Op == token.ILLEGAL {
 			continue
 		}
+		// nil against a value that cannot be nil on this path (err = fmt.Errorf(...) then
+		// `err != nil` taken as false)
+		if f.Op == token.EQL || f.Op == token.NEQ {
+			for _, pr := range [][2]ssa.Value{{f.X, f.Y}, {f.Y, f.X}} {
+				if !IsNilConst(pr[0]) {
+					continue
+				}
+				if KnownNonNil(pr[1]) && f.Op == token.EQL {
+					return nil, false
+				}
+				if IsNilConst(pr[1]) && f.Op == token.NEQ && isNilable(pr[1].Type()) {
+					return nil, false
+				}
+			}
+		}
 		kx, okx := ConstInt(f.X)
 		ky, oky := ConstInt(f.Y)
 		if !okx || !oky {
@@ -439,6 +463,110 @@ func factsOnPath(cond ssa.Value, truth bool, path []*ssa.BasicBlock, depth int) 
 		}
 	}
 	return fs, true
+}
+
+// KnownNonNil: the value is never nil (a fresh error, allocation, boxed value, address).
+func KnownNonNil(v ssa.Value) bool {
+	switch x := v.(type) {
+	case *ssa.Call:
+		if f := x.Call.StaticCallee(); f != nil && f.Pkg != nil {
+			switch f.Pkg.Pkg.Path() + "." + f.Name() {
+			case "fmt.Errorf", "errors.New":
+				return true
+			}
+		}
+	case *ssa.MakeInterface, *ssa.Alloc, *ssa.MakeMap, *ssa.MakeChan, *ssa.MakeClosure, *ssa.FieldAddr, *ssa.IndexAddr, *ssa.Function, *ssa.Global:
+		return true
+	case *ssa.ChangeInterface:
+		return KnownNonNil(x.X)
+	case *ssa.UnOp:
+		// a package-level sentinel (var errX = errors.New(...)) nobody assigns afterwards
+		if g, ok := x.X.(*ssa.Global); ok && x.Op == token.MUL {
+			return sentinelGlobal(g)
+		}
+	}
+	return false
+}
+
+var sentinelCache = map[*ssa.Package]map[*ssa.Global]bool{}
+
+func sentinelGlobal(g *ssa.Global) bool {
+	pk := g.Pkg
+	if pk == nil {
+		return false
+	}
+	if m, ok := sentinelCache[pk]; ok {
+		return m[g]
+	}
+	inits := map[*ssa.Global]int{}
+	bad := map[*ssa.Global]bool{}
+	seen := map[*ssa.Function]bool{}
+	var visit func(f *ssa.Function)
+	visit = func(f *ssa.Function) {
+		if f == nil || seen[f] {
+			return
+		}
+		seen[f] = true
+		for _, b := range f.Blocks {
+			for _, in := range b.Instrs {
+				for _, op := range in.Operands(nil) {
+					gg, isG := (*op).(*ssa.Global)
+					if !isG {
+						continue
+					}
+					switch x := in.(type) {
+					case *ssa.UnOp:
+						if x.Op == token.MUL {
+							continue
+						}
+					case *ssa.Store:
+						if x.Addr == ssa.Value(gg) && f.Name() == "init" && f.Parent() == nil {
+							if c, isC := x.Val.(*ssa.Call); isC && KnownNonNil(c) {
+								inits[gg]++
+								continue
+							}
+						}
+					}
+					bad[gg] = true
+				}
+			}
+		}
+		for _, a := range f.AnonFuncs {
+			visit(a)
+		}
+	}
+	for _, m := range pk.Members {
+		switch m := m.(type) {
+		case *ssa.Function:
+			visit(m)
+		case *ssa.Type:
+			for _, t := range []types.Type{m.Type(), types.NewPointer(m.Type())} {
+				ms := pk.Prog.MethodSets.MethodSet(t)
+				for i := 0; i < ms.Len(); i++ {
+					visit(pk.Prog.MethodValue(ms.At(i)))
+				}
+			}
+		}
+	}
+	out := map[*ssa.Global]bool{}
+	for gg, n := range inits {
+		// unexported, or exported: other packages can only assign an exported one, and the
+		// load-time check of the importing package would be needed; keep to unexported ones and
+		// exported ones of error type that no in-package code reassigns
+		if n == 1 && !bad[gg] {
+			out[gg] = true
+		}
+	}
+	sentinelCache[pk] = out
+	return out[g]
+}
+
+func isNilable(t types.Type) bool {
+	switch t.Underlying().(type) {
+	case *types.Pointer, *types.Interface, *types.Slice, *types.Map, *types.Chan, *types.Signature:
+		return true
+	}
+	return false
 }
 
 // resolveFactOperands adds, for every comparison whose operand is a phi entered along the
@@ -487,6 +615,38 @@ func ResolveOnPath(v ssa.Value, path []*ssa.BasicBlock) ssa.Value {
 		}
 	}
 	return v
+}
+
+// PathFacts lists what the branches taken along the path suffix have established (the facts of
+// every edge between consecutive blocks of sfx, phis resolved along it). A test written as nested
+// ifs establishes its conjuncts on consecutive edges; a cut predicate asking for the conjunction
+// sees them together this way. Only the acyclic tail of the suffix is used: a block seen twice
+// means the earlier facts are about the previous iteration's values.
+func PathFacts(sfx []*ssa.BasicBlock) []Fact {
+	start := 0
+	last := map[*ssa.BasicBlock]int{}
+	for i, b := range sfx {
+		if j, ok := last[b]; ok && j+1 > start {
+			start = j + 1
+		}
+		last[b] = i
+	}
+	var out []Fact
+	for j := start; j+1 < len(sfx); j++ {
+		b, nb := sfx[j], sfx[j+1]
+		if len(b.Succs) != 2 || b.Succs[0] == b.Succs[1] || len(b.Instrs) == 0 {
+			continue
+		}
+		ifi, ok := b.Instrs[len(b.Instrs)-1].(*ssa.If)
+		if !ok {
+			continue
+		}
+		efs, feasible := FactsOnPath(ifi.Cond, b.Succs[0] == nb, sfx[:j+1])
+		if feasible {
+			out = append(out, efs...)
+		}
+	}
+	return out
 }
 
 // CutSpecPS is CutSpec with a facts-based cut predicate evaluated path-sensitively.
@@ -547,10 +707,10 @@ func CutReachPS(s CutSpecPS) []*ssa.BasicBlock {
 		for i, succ := range n.b.Succs {
 			if ifi != nil && len(n.b.Succs) == 2 && n.b.Succs[0] != n.b.Succs[1] {
 				fs, feasible := FactsOnPath(ifi.Cond, i == 0, sfx)
-				if !feasible {
+				if !feasible || contradictsPath(fs, sfx) {
 					continue
 				}
-				if s.Cut != nil && s.Cut(fs) {
+				if s.Cut != nil && s.Cut(append(fs, PathFacts(sfx)...)) {
 					continue
 				}
 			}
